@@ -5,6 +5,8 @@ Local Open Scope Z_scope.
 Definition search_factor : Z := 4.
 (* util.go readerContainsAny: halflen := bufflen / D *)
 Definition search_half_div : Z := 2.
+(* unionFile.go copyFile: 1 iff the parent directory is computed from filepath.Clean(name) *)
+Definition copyfile_cleans_name : Z := 0.
 (* path.go Walk: 1 iff a final filepath.SkipDir is converted into nil (as path/filepath.Walk does) *)
 Definition walk_skipdir_to_nil : Z := 1.
 (* sftpfs/sftp.go MkdirAll: 1 iff the fast path returns an error for an existing non-directory *)
@@ -40,7 +42,7 @@ Definition readonly_mask : Z := 1603.
 (* mem/file.go FileInfo.Size of a directory *)
 Definition dir_size : Z := 42.
 (* regexpfs.go OpenFile: 1 iff the returned file is wrapped in a RegexpFile (filtered listings) *)
-Definition regexp_openfile_wraps : Z := 0.
+Definition regexp_openfile_wraps : Z := 1.
 (* copyOnWriteFs.go OpenFile: write path iff flag&MASK != 0 *)
 Definition cow_mask : Z := 1603.
 (* cacheOnReadFs.go OpenFile: union handle over both layers iff flag&MASK != 0 *)
